@@ -23,6 +23,9 @@ for rel, ent in sorted(m.items()):
                                                nd.get('strengthening', '')))
 mine = sorted(r for r in m if r.startswith('mutants/'))
 MUTANT_NOTES = {
+    'mutants/C17-4.patch': ' - it takes back the repair of KF-C20-1 (axis anti-parallel to z); for the hydrogen builder the turn by -theta '
+                           'only swaps which of two symmetric positions is filled first, so the set of hydrogens is unchanged and C17 rightly '
+                           'stays silent; it is a C20 change and C20 reports it (run with --also=C20)',
     'mutants/C07-4.patch': ' - an equivalent mutant, kept as a reminder: it sets the internal `charge` attribute of every backbone nitrogen '
                            'to 1 before `--protonate-all` places hydrogens, but the same hydrogens are placed at the same positions and no '
                            'reported number, written file or log line changes (compared atom by atom and group by group on the twelve '
